@@ -109,7 +109,7 @@ ASSUMPTIONS = [
     "built from the same inputs (the donor inversion); the k inversions of a sequence share dataset, linear objects and Preloads object",
     "the reference is the repository's own inversion with the preloads argument omitted (the property is a relation between two runs of the code)",
 ]
-EXPLORER_OPTS = {"timeout_ms": 6000, "max_paths": 2000, "max_decisions": 4000}
+EXPLORER_OPTS = {"timeout_ms": 10000, "max_paths": 2000, "max_decisions": 4000}
 BUDGET_S = {"quick": 900, "thorough": 2300}
 
 ADD_TO_DIAG = 0.25          # dyadic, so that the exact-rational run and float64 agree bit for bit
@@ -575,6 +575,9 @@ def _all_subsets():
     return out
 
 
+SLOW = {"timeout_ms": 40000}     # cases with a data-dependent branch / non-linear terms: the reachability twin must not time out on a loaded machine
+
+
 def cases(tier):
     out = []
     subs = _all_subsets()
@@ -592,7 +595,7 @@ def cases(tier):
                     out.append(("case_seq", {"geom": geom, "mix": mix, "wt": wt, "subsets": subs[i:i + chunk], "k": k}))
                 # (2) the degenerate-solution test (config check_reconstruction: a fork on the reconstruction) switched on
                 out.append(("case_seq", {"geom": geom, "mix": mix, "wt": wt, "subsets": [["curvature_matrix"], list(SLOTS)],
-                                         "k": 2, "check": True}))
+                                         "k": 2, "check": True}, SLOW))
                 # (3) the further public slots of Preloads
                 if "M" in mix:
                     if quick:
@@ -603,7 +606,7 @@ def cases(tier):
                             out.append(("case_seq", {"geom": geom, "mix": mix, "wt": wt, "subsets": ext[i:i + chunk], "k": k}))
                 # (4) data AND noise symbolic
                 if quick or "M" in mix:
-                    out.append(("case_seq", {"geom": geom, "mix": mix, "wt": wt, "subsets": NOISE_SUBSETS, "k": 2, "noise_sym": True}))
+                    out.append(("case_seq", {"geom": geom, "mix": mix, "wt": wt, "subsets": NOISE_SUBSETS, "k": 2, "noise_sym": True}, SLOW))
                 # (5) slot values taken from an identical inversion of the OTHER formalism
                 if not quick and mix in ("FM", "MF", "MM"):
                     for i in range(0, len(subs), 16):
@@ -611,7 +614,7 @@ def cases(tier):
             # (6) the factory's choice of formalism
             out.append(("case_factory", {"geom": geom, "mix": mix}))
             if not quick and mix in ("M", "FM"):
-                out.append(("case_factory", {"geom": geom, "mix": mix, "check": True}))
+                out.append(("case_factory", {"geom": geom, "mix": mix, "check": True}, SLOW))
     return out
 
 
